@@ -68,11 +68,11 @@ register("C06", "props.c06", ["ValidaProofs.C06"], 1000, 25000,
          "one case = a cast-free schema of 0-5 (thorough 0-8) generated rules validated on a document grown along one rule's path, "
          "and the same rules in a seeded permutation; distinct = (#rules, valid, min(#failures,3), min(#tested,3)); "
          "non-trivial = at least two rules of which some but not all are valid")
-register("C07", "props.c07", ["ValidaProofs.C07"], 1000, 25000,
+register("C07", "props.c07", ["ValidaProofs.C07", "ValidaProofs.C07Casts"], 1000, 25000,
          "as C06 with 40% of the rules declaring str->bool / str->int casts, callable arguments of the expected kinds, and half of "
          "the documents drawn independently of the rules (type-hostile: strings where numbers are expected, None, empty containers, "
          "uncastable strings, nodes inside lists); distinct as C06 plus cast?; non-trivial as C06")
-register("C15", "props.c15", ["ValidaProofs.C15"], 1000, 25000,
+register("C15", "props.c15", ["ValidaProofs.C15", "ValidaProofs.C07Casts"], 1000, 25000,
          "half schema validations with 80% cast rules, half single rule tests with 90% cast rules, over documents holding castable and "
          "uncastable strings under keys of every type and list indices; distinct as C05/C06 tuples; non-trivial as there")
 register("C09", "props.c09", ["ValidaProofs.C09"], 1500, 40000,
